@@ -120,6 +120,12 @@ func (b *c19builder) term() interface{} {
 	case "simw":
 		x := b.term()
 		return b.own(b.number(streams.NewStreamConnection(x.(io.ReadWriteCloser), &fakeConn{})), b.owns[x])
+	case "simwc":
+		// a stream over a carrier that is itself one of the package's wrappers (its objects come first and can be closed on their own):
+		// the stream connection owns the stream's resources, not the carrier's
+		carrier := b.term()
+		x := b.term()
+		return b.own(b.number(streams.NewStreamConnection(x.(io.ReadWriteCloser), carrier.(net.Conn))), b.owns[x])
 	}
 	panic("verifharness: bad c19 term")
 }
